@@ -318,11 +318,13 @@ struct PkRun {
       g_sim.cur_op = vi_++; g_sim.cur_op_name = "var"; stack_scribble(poison_mode, pseed + (uint64_t)vi_); watchdog_rearm();
       int hsel = (int)(v->u("h", 2) % 3); std::vector<uint8_t> hd[3] = {l->hdr[0].data, l->hdr[1].data, l->hdr[2].data};
       field_fault_at(hd[hsel], maps[hsel], v->u("fi"), v->u("fv"), v->u("fb")); nontrivial = true; g_stats.inc("probe.header_variants");
+      if (v->has("fi2")) { field_fault_at(hd[hsel], maps[hsel], v->u("fi2"), v->u("fv2"), v->u("fb") + 1); g_stats.inc("probe.header_variants_two_fields"); }   // two fields of the same header at once (fixed-width fields: the map stays valid)
+      bool go = v->i("go", 0) != 0;   // the caller does not stop at a refused header: the remaining headers are offered and the decoder set up anyway (it has to refuse, or work)
       vorbis_info_init(&o->vi); vorbis_comment_init(&o->vc); int ok = 0;
       for (int i = 0; i < 3; i++) { ogg_packet p; p.packet = hd[i].data(); p.bytes = (long)hd[i].size(); p.b_o_s = i == 0; p.e_o_s = 0; p.granulepos = 0; p.packetno = i; sim_tick("packet");
-        int r = vorbis_synthesis_headerin(&o->vi, &o->vc, &p); h.i64(r); check(r == 0 || documented_code(r), "headerin", "undocumented-return", fmt("ret=%d", r)); if (r) break; ok++; }
-      if (ok == 3) { g_stats.inc("probe.header_variant_accepted");
-        int r = vorbis_synthesis_init(&o->vd, &o->vi); h.i64(r);
+        int r = vorbis_synthesis_headerin(&o->vi, &o->vc, &p); h.i64(r); check(r == 0 || documented_code(r), "headerin", "undocumented-return", fmt("ret=%d", r)); if (r) { if (go) continue; break; } ok++; }
+      if (ok == 3 || go) { g_stats.inc(ok == 3 ? "probe.header_variant_accepted" : "probe.decoder_set_up_after_a_refused_header");
+        int r = vorbis_synthesis_init(&o->vd, &o->vi); h.i64(r); if (r == 0 && ok < 3) g_stats.inc("probe.decoder_set_up_after_a_refused_header_succeeded");
         if (r == 0) { vorbis_block_init(&o->vd, &o->vb); int nch = o->vi.channels; size_t np = std::min<size_t>(l->audio.size(), (size_t)v->i("np", 8));
           for (size_t j = 0; j < np; j++) { ogg_packet p = pkt_to_op(l->audio[j]); sim_tick("packet"); int sr = vorbis_synthesis(&o->vb, &p); h.i64(sr); check(sr == 0 || documented_code(sr), "synthesis", "undocumented-return", fmt("ret=%d", sr));
             if (sr == 0) vorbis_synthesis_blockin(&o->vd, &o->vb);
@@ -397,7 +399,12 @@ struct PkGen {
       int hsel = g.chance(0.8) ? 2 : (int)g.below(2); auto ll = get_link(r);
       size_t nf = hsel == 0 ? map_id_header(ll->hdr[0].data).size() : hsel == 1 ? map_comment_header(ll->hdr[1].data).size() : map_setup_header(ll->hdr[2].data, r.ch).size();
       size_t slice = thorough ? 120 : 40; size_t first = nf > slice ? (size_t)g.below(nf - slice + 1) : 0; uint64_t fb = g.next() % 100000;
-      for (size_t fi = first; fi < std::min(nf, first + slice); fi++) for (int fv = 0; fv < 10; fv++) p.add("var").set("h", hsel).setu("fi", fi).set("fv", fv).setu("fb", fb);
+      if (hsel == 0 && nf >= 2 && g.chance(0.6)) {   // identification header: one pair of fields x every pair of value kinds, once stopping at the refusal and once going on regardless
+        size_t a = (size_t)g.below(nf), b = (size_t)g.below(nf - 1); if (b >= a) b++;
+        for (int fv = 0; fv < 10; fv++) for (int fv2 = 0; fv2 < 10; fv2++) for (int go = 0; go < 2; go++) p.add("var").set("h", 0).setu("fi", a).set("fv", fv).setu("fi2", b).set("fv2", fv2).setu("fb", fb).set("go", go);
+        return p; }
+      bool goon = g.chance(0.3);
+      for (size_t fi = first; fi < std::min(nf, first + slice); fi++) for (int fv = 0; fv < 10; fv++) { Rec &vr = p.add("var"); vr.set("h", hsel).setu("fi", fi).set("fv", fv).setu("fb", fb); if (goon) vr.set("go", 1); }
       return p;
     }
     // chaos
